@@ -464,6 +464,7 @@ func TestC03InitiatorHonest(t *testing.T) {
 type rstep struct {
 	kind    string
 	mech    string
+	authz   string // authorization identity of the PLAIN message ("" = none)
 	user    string
 	pass    string
 	verdict bool
@@ -472,13 +473,16 @@ type rstep struct {
 type rcase struct {
 	mechs []string
 	steps []rstep
+	// the feature is configured without a permission callback: nobody ever
+	// accepts any credentials
+	nilPerm bool
 }
 
 func (c rcase) String() string {
 	var sb strings.Builder
-	fmt.Fprintf(&sb, "receiver configured=%v steps:", c.mechs)
+	fmt.Fprintf(&sb, "receiver configured=%v permission-callback-is-nil=%v steps:", c.mechs, c.nilPerm)
 	for _, s := range c.steps {
-		fmt.Fprintf(&sb, " [%s mech=%q user=%q pass=%q verdict=%v]", s.kind, s.mech, s.user, s.pass, s.verdict)
+		fmt.Fprintf(&sb, " [%s mech=%q authzid=%q user=%q pass=%q verdict=%v]", s.kind, s.mech, s.authz, s.user, s.pass, s.verdict)
 	}
 	return sb.String()
 }
@@ -495,8 +499,19 @@ func genRCase(t *rapid.T) rcase {
 		s.user = rapid.SampledFrom([]string{"juliet", "juliet", "romeo", ""}).Draw(t, "user")
 		s.pass = rapid.SampledFrom([]string{password, password, "wrong", ""}).Draw(t, "pass")
 		s.verdict = rapid.IntRange(0, 2).Draw(t, "verdict") > 0
+		switch rapid.IntRange(0, 7).Draw(t, "authzid") {
+		case 0:
+			s.authz = s.user
+		case 1:
+			s.authz = s.user + "@" + server.Domain().String()
+		case 2:
+			s.authz = "admin"
+		case 3:
+			s.authz = "admin@" + server.Domain().String()
+		}
 		c.steps = append(c.steps, s)
 	}
+	c.nilPerm = rapid.IntRange(0, 7).Draw(t, "nilperm") == 0
 	return c
 }
 
@@ -550,7 +565,7 @@ func runReceiver(c rcase) rresult {
 			step++
 			verdictFor = s.verdict
 			res.log = append(res.log, s.kind)
-			plain := base64.StdEncoding.EncodeToString([]byte("\x00" + s.user + "\x00" + s.pass))
+			plain := base64.StdEncoding.EncodeToString([]byte(s.authz + "\x00" + s.user + "\x00" + s.pass))
 			authOK := func(payloadOK bool) {
 				if modelDone {
 					return
@@ -561,9 +576,9 @@ func runReceiver(c rcase) rresult {
 						configured = true
 					}
 				}
-				if configured && payloadOK && s.verdict {
+				if configured && payloadOK && s.verdict && !c.nilPerm {
 					res.mayAuthn = true
-					if s.user != "" && s.pass != "" {
+					if s.user != "" && s.pass != "" && s.authz == "" {
 						res.wantAuthn = true
 					}
 				}
@@ -619,6 +634,9 @@ func runReceiver(c rcase) rresult {
 		res.calls = append(res.calls, permCall{string(u), string(pw), verdictFor})
 		return verdictFor
 	}
+	if c.nilPerm {
+		perm = nil
+	}
 	var s *xmpp.Session
 	res.panicked = ev.Guard(func() {
 		s, res.err = xmpp.ReceiveSession(context.Background(), peer.Conn, xmpp.Secure,
@@ -647,6 +665,9 @@ func checkReceiver(t failer, c rcase) rresult {
 	}
 	if r.authn && !r.mayAuthn {
 		fail("marked authenticated although no completed exchange with accepted credentials took place")
+	}
+	if r.authn && c.nilPerm {
+		fail("marked authenticated although the feature has no permission callback (nobody accepted the credentials)")
 	}
 	if r.authn {
 		if len(r.calls) == 0 {
@@ -683,6 +704,12 @@ func TestC03Receiver(t *testing.T) {
 		var classes []string
 		for _, s := range c.steps {
 			classes = append(classes, "recv-"+s.kind)
+			if s.authz != "" && s.kind == "auth" {
+				classes = append(classes, "recv-auth-with-authorization-identity")
+			}
+		}
+		if c.nilPerm {
+			classes = append(classes, "recv-no-permission-callback")
 		}
 		ev.Case(len(c.steps) >= 2, c.String(), classes...)
 		r := checkReceiver(rt, c)
